@@ -127,13 +127,12 @@ void listT(Case& c, bool useFront, unsigned nops) {
         if (Conc && !m.empty() && useFront)
           f = val(l.front());
         if (rng.below(3)) {
-          c.op("pop_front(heap)");
+          c.op("pop_front(heap)", NOARG, NOARG, "pop_front");
           popped = l.pop_front(heap);
         } else {
-          c.op("pop_front(promise_to_dealloc)");
+          c.op("pop_front(promise_to_dealloc)", NOARG, NOARG, "pop_front");
           popped = l.pop_front(Promise());
         }
-        c.lastOp = "pop_front";
         c.eq("result-popped", popped, !m.empty());
         if (!c.bad && !m.empty()) {
           if (Conc && useFront) {
@@ -164,7 +163,7 @@ void listT(Case& c, bool useFront, unsigned nops) {
       m.clear();
       checkList<L, Conc>(c, *lp, m, CS, tracked, useFront);
     }
-    c.lastOp = "destructor";
+    c.phase("destructor");
   }
   c.lifetimesOk(tracked ? 0 : -1);
 }
@@ -185,7 +184,7 @@ template <bool Conc>
 void runList(Case& c, const char* name) {
   unsigned cs   = c.rng.pick({1u, 2u, 2u, 3u, 3u, 4u, 4u, 16u, 64u});
   bool tracked  = c.rng.below(3) != 0;
-  bool useFront = c.rng.below(2) == 0; // front() is part of the per-step checks
+  bool useFront = c.rng.below(VERIF_ASAN ? 32 : 4) == 0; // front() is part of the per-step checks (rarer where a failed assert costs a process)
   unsigned nops = c.pickOps();
   std::string cfg = "cs" + std::to_string(cs) + (tracked ? "|tracked" : "|pod") + (useFront ? "|front" : "");
   c.begin(name, cfg,
